@@ -3,7 +3,7 @@ from runner import CbmcUnit, Entry
 
 def units(tier):
     q = tier == "quick"
-    nmax, steps = (3, 2) if q else (4, 3)
+    nmax, steps = (2, 2) if q else (4, 3)
     uw = nmax + 3
     E = lambda n, d, **kw: Entry(n, unwind=uw, desc=d, bounds="sizes 0..%d, history length %d, unwind %d" % (nmax, steps, uw),
                                  timeout=300 if q else 1500, **kw)
